@@ -7,7 +7,7 @@ Open Scope Z_scope.
 (* the regenerated default table: every line of the sources is a valid declaration; keys are unique, priorities lie in
    1..1200, no name is infix and postfix, [] and {} are not operators, '|' (if present) is infix >= 1001 *)
 Theorem default_table_wf : default_all_valid = true /\ wf default_table.
-Proof. exact (conj default_valid default_wf). Qed.
+Proof. exact default_table_both. Qed.
 Print Assumptions default_table_wf.
 
 (* every history of op/3 calls (valid or not, any arguments) from the default table keeps the table well-formed *)
@@ -55,7 +55,7 @@ Print Assumptions accepted_call_applies_all_names.
 Theorem op_errors_in_iso_order :
   (forall t P Sp Nm, snd (op_call t P Sp Nm) = ROk <-> applicable_errors t P Sp Nm = []) /\
   (forall t P Sp Nm e l, applicable_errors t P Sp Nm = e :: l -> op_call t P Sp Nm = (t, RErr e)).
-Proof. exact (conj accepted_iff_no_error first_error_reported). Qed.
+Proof. exact error_order_both. Qed.
 Print Assumptions op_errors_in_iso_order.
 
 (* current_op/3 with all arguments unbound enumerates exactly the table, each operator once ... *)
